@@ -76,6 +76,15 @@ Theorem C20_matches_posix : forall dt, valid_datetime dt = true ->
 Proof. exact matches_posix. Qed.
 Print Assumptions C20_matches_posix.
 
+(* ... and the break-down side stated directly: the fields BreakTime produces for t are valid and
+   the POSIX formula maps them to t, for every instant of the range *)
+Theorem C20_breaktime_matches_posix : forall t, utc_first <= t < utc_end ->
+  let dt := break_utc t in
+  valid_datetime dt = true /\
+  posix_seconds (year dt) (month dt) (day dt) (hour dt) (minute dt) (second dt) = t.
+Proof. exact breaktime_matches_posix. Qed.
+Print Assumptions C20_breaktime_matches_posix.
+
 Example C20_calendar_nonvacuous :
   valid_date 2000 2 29 = true /\ getJulianDayNumber 2000 2 29 = 2451604 /\
   getYearMonthDay 2451604 = (2000, 2, 29) /\ weekDay 2451604 = 2 /\
@@ -119,7 +128,8 @@ Print Assumptions C20_local_civil.
    (3) t lies in the repeated window before transition s, 1 <= s and s+1 < nT
        => postTransition=false returns t (the earlier instant), =true the later one.
    MISSING: case (3) when transition s is the first (s = 0) or the last (s+1 = nT) of the
-   table: the code returns the later instant for both flags (findings/C20.md). *)
+   table: the code returns the later instant for both flags (findings/C20.md); what it does
+   there is stated by C20_local_edge_behaviour / C20_local_last_transition_defect below. *)
 Theorem C20_local_roundtrip_partial : forall tb t, wf tb = true ->
   let s := seg tb t in let L := t + offset_at tb t in
   ((s = nT tb \/ L < U tb s + O tb s) -> fromLocalSeconds tb L true = t) /\
@@ -140,6 +150,38 @@ Theorem C20_local_skipped_partial : forall tb j L post, wf tb = true -> (1 <= j 
   fromLocalSeconds tb L post = L - (if post then O tb j else OB tb j).
 Proof. exact local_skipped. Qed.
 Print Assumptions C20_local_skipped_partial.
+
+(* The three theorems above speak about every local time there is: a local time L is the local
+   time of some instant, or it falls into the gap of a forward transition. *)
+Theorem C20_local_cover : forall tb L, wf tb = true ->
+  (exists t, t + offset_at tb t = L) \/
+  (exists j, (j < nT tb)%nat /\ U tb j + OB tb j <= L < U tb j + O tb j).
+Proof. exact local_cover. Qed.
+Print Assumptions C20_local_cover.
+
+(* What the code does in the cases the partial theorems leave out (all well-formed tables):
+   - from the local image of the LAST transition on, the last transition's record for both flags;
+   - before the local image of the FIRST transition, record 0 for both flags (this includes a
+     skipped local time at the first transition); inside the repeated window of the first
+     transition, the first transition's record for both flags. *)
+Theorem C20_local_edge_behaviour : forall tb L post, wf tb = true -> (1 <= nT tb)%nat ->
+  (U tb (nT tb - 1) + O tb (nT tb - 1) <= L -> fromLocalSeconds tb L post = L - O tb (nT tb - 1)) /\
+  (L < U tb 0 + O tb 0 -> fromLocalSeconds tb L post = L - off_of tb 0) /\
+  (U tb 0 + O tb 0 <= L < U tb 0 + OB tb 0 -> fromLocalSeconds tb L post = L - O tb 0).
+Proof.
+  intros tb L post Hw Hn. destruct (local_at_first tb L post Hw Hn) as [H1 H2].
+  exact (conj (local_at_last tb L post Hw Hn) (conj H1 H2)).
+Qed.
+Print Assumptions C20_local_edge_behaviour.
+
+(* the finding at the last transition, exactly: in EVERY well-formed table, for EVERY instant t of
+   the repeated window before the last transition, both flags return the later instant *)
+Theorem C20_local_last_transition_defect : forall tb t, wf tb = true ->
+  let s := seg tb t in let L := t + offset_at tb t in
+  S s = nT tb -> U tb s + O tb s <= L ->
+  forall post, fromLocalSeconds tb L post = t + (OB tb s - O tb s) /\ t < t + (OB tb s - O tb s).
+Proof. exact local_last_defect. Qed.
+Print Assumptions C20_local_last_transition_defect.
 
 Theorem C20_local_roundtrip_refuted :
   exists tb t, wf tb = true /\ forall post, fromLocalSeconds tb (t + offset_at tb t) post <> t.
